@@ -90,9 +90,60 @@ pub mod a_%(low)s {
 }
 '''
 
+QUALIFIED = '''
+#[allow(dead_code, unused_variables, unused_imports, non_camel_case_types, clippy::all)]
+pub mod q_%(low)s {
+    use sylvia::ctx::{ExecCtx, InstantiateCtx, QueryCtx, SudoCtx};
+    use sylvia::cw_std::{Empty, Response, StdError};
+    use verif_rrt::{ContractError, QResp};
+    use std::marker::PhantomData;
+    thread_local! { pub static RAN: std::cell::RefCell<Vec<&'static str>> = const { std::cell::RefCell::new(Vec::new()) }; }
+    pub mod other {
+        /// a concrete type that happens to be called like the contract's type parameter
+        #[sylvia::cw_schema::cw_serde(crate = "sylvia::cw_schema")]
+        #[derive(Default)]
+        pub struct %(N)s {
+            pub n: u32,
+        }
+    }
+    pub struct GCtr<%(N)s>(PhantomData<%(N)s>);
+    #[sylvia::entry_points(generics<Empty>)]
+    #[sylvia::contract]
+    #[sv::error(ContractError)]
+    impl<%(N)s> GCtr<%(N)s> where %(N)s: sylvia::types::CustomMsg + 'static {
+        pub const fn new() -> Self { GCtr(PhantomData) }
+        #[sv::msg(instantiate)]
+        fn instantiate(&self, ctx: InstantiateCtx, v: %(N)s) -> Result<Response, ContractError> { Ok(Response::new()) }
+        #[sv::msg(exec)]
+        fn put(&self, ctx: ExecCtx, v: other::%(N)s) -> Result<Response, ContractError> { RAN.with(|r| r.borrow_mut().push("put")); Ok(Response::new()) }
+        #[sv::msg(query)]
+        fn get(&self, ctx: QueryCtx, v: %(N)s) -> Result<QResp, ContractError> { RAN.with(|r| r.borrow_mut().push("get")); Ok(QResp { h: "get".into(), code: 1 }) }
+        #[sv::msg(sudo)]
+        fn poke(&self, ctx: SudoCtx, v: Option<other::%(N)s>) -> Result<Response, ContractError> { Ok(Response::new()) }
+    }
+    pub fn smoke() -> (bool, String, String) {
+        use sylvia::cw_std::testing::{message_info, mock_dependencies, mock_env};
+        let mut deps = mock_dependencies();
+        // the exec and sudo messages do not use the parameter: they are named without type arguments
+        let built: sv::ExecMsg = sv::ExecMsg::put(other::%(N)s { n: 1 });
+        let _sudo: sv::SudoMsg = sv::SudoMsg::poke(None);
+        let same = sylvia::cw_std::to_json_string(&built).map(|t| t == "{\\"put\\":{\\"v\\":{\\"n\\":1}}}").unwrap_or(false);
+        let e: Result<sv::ContractExecMsg<Empty>, _> = sylvia::cw_std::from_json(b"{\\"put\\":{\\"v\\":{\\"n\\":1}}}");
+        let q: Result<sv::ContractQueryMsg<Empty>, _> = sylvia::cw_std::from_json(b"{\\"get\\":{\\"v\\":{}}}");
+        let info = message_info(&sylvia::cw_std::Addr::unchecked("s"), &[]);
+        let a = e.map(|m| entry_points::execute(deps.as_mut(), mock_env(), info, m).is_ok()).unwrap_or(false);
+        let b = q.map(|m| entry_points::query(deps.as_ref(), mock_env(), m).is_ok()).unwrap_or(false);
+        let ran = RAN.with(|r| r.borrow().clone());
+        (a && b && same, ran.first().copied().unwrap_or("").to_string(), ran.get(1).copied().unwrap_or("").to_string())
+    }
+}
+'''
+
+TEMPLATES = {"generic_contract": ("g_", GENERIC), "interface_assoc": ("a_", ASSOC), "generic_qualified": ("q_", QUALIFIED)}
+
 
 def modname(cfg):
-    return ("g_" if cfg["shape"] == "generic_contract" else "a_") + cfg["param"].lower()
+    return TEMPLATES[cfg["shape"]][0] + cfg["param"].lower()
 
 
 def generate(cfgs, out_dir, harness_dir, repo, shards, write_if_changed, exclude=()):
@@ -108,7 +159,7 @@ def generate(cfgs, out_dir, harness_dir, repo, shards, write_if_changed, exclude
         src = "// generated by harness/gen/hygiene.py -- do not edit\n"
         for c in g:
             start = src.count("\n") + 1
-            src += (GENERIC if c["shape"] == "generic_contract" else ASSOC) % {"N": c["param"], "low": c["param"].lower()}
+            src += TEMPLATES[c["shape"]][1] % {"N": c["param"], "low": c["param"].lower()}
             spans[(name, modname(c))] = (start, src.count("\n"))
         src += "\nfn main() {\n    let a: Vec<String> = std::env::args().collect();\n    verif_rrt::rt::open_trace(&a[1]);\n"
         for c in g:
